@@ -19,8 +19,9 @@ Encoding of the Go maps (isomorphic, not tidied):
 `QI.ns` is not part of Go's QuotaInfo: it is the namespaces annotation of the last accepted
 API object (the API server hands it back as `oldQuota` on update and as the object on delete).
 Feature gates are at their defaults (ElasticQuotaEnableUpdateResourceKey=false,
-ElasticQuotaGuaranteeUsage=false).  Creating an object NAMED koordinator-root-quota is outside
-the model (driver answers `bad-op`), see Props/C15.lean.
+ElasticQuotaGuaranteeUsage=false).  Creating an object NAMED koordinator-root-quota (name 0; its
+parent label "" is name 99) is run like any other create (validateQuotaTopology returns nil for it);
+the `Forest` theorems exclude it by the hypothesis `NotRootAdd`, see Props/C15.lean.
 -/
 namespace KoordVerif.C15
 
@@ -182,7 +183,9 @@ def nsDelAll (m : List (Nat × Nat)) (l : List Nat) : List (Nat × Nat) := l.fol
 def nsSetAll (m : List (Nat × Nat)) (l : List Nat) (q : Nat) : List (Nat × Nat) :=
   l.foldl (fun m n => nsSet m n q) m
 
-/-- ValidAddQuota -/
+/-- ValidAddQuota.  Since the repair f812ecb the child set of the new name is created only when it
+    is absent (`if qt.quotaHierarchyInfo[name] == nil`), so recorded children of that name are kept
+    (before: `kids.filter (e.1 != q.name)`, which emptied the root's child set on a root-named create). -/
 def validAdd (d : Nat) (s : Topo) (q : QI) (swNeg : Bool) : Topo × Bool :=
   if (find s.info q.name).isSome then (s, false)
   else if q.ns.any (fun n => (nsGet s.nsMap n).isSome) then (s, false)
@@ -191,7 +194,7 @@ def validAdd (d : Nat) (s : Topo) (q : QI) (swNeg : Bool) : Topo × Bool :=
   else
     ({ info := q :: s.info
        hkeys := q.parent :: q.name :: s.hkeys
-       kids := (q.parent, q.name) :: s.kids.filter (fun e => e.1 != q.name)
+       kids := (q.parent, q.name) :: s.kids
        nsMap := nsSetAll s.nsMap q.ns q.name }, true)
 
 /-- quotaFieldsCopy equality (labels parent / is-parent / tree-id, annotation namespaces, spec). -/
